@@ -537,6 +537,9 @@ func (req *Request) Process(store StorageClient, stat *Stats) (resp *Response, e
 		key := req.Keys[0]
 		var suc bool
 		suc, err = store.Append(key, req.Item.Body)
+		// the storage client does not take ownership of the value buffer
+		cmem.DBRL.SetData.SubSizeAndCount(req.Item.CArray.Cap)
+		req.Item.CArray.Free()
 		if err != nil {
 			resp.Status = "SERVER_ERROR"
 			resp.Msg = err.Error()
@@ -625,6 +628,13 @@ func (req *Request) Process(store StorageClient, stat *Stats) (resp *Response, e
 		resp = nil
 
 	default:
+		// memcache verbs that are parsed but not served (prepend, decr): release what Read accounted for
+		if req.Cmd == "decr" {
+			cmem.DBRL.SetData.SubCount(1)
+		} else if req.Item != nil {
+			cmem.DBRL.SetData.SubSizeAndCount(req.Item.CArray.Cap)
+			req.Item.CArray.Free()
+		}
 		resp = nil
 		logger.Errorf("Should not reach here, req.Cmd: %s", req.Cmd)
 	}
